@@ -697,7 +697,11 @@ pub fn run_main(args: &Args) -> i32 {
                 "address-space layout: ASLR off + seeded heap/mmap/stack displacement (exec tier only)"
             ],
             "stub": [
-                "main.rs run (inproc tier): 40-line mirror with a step-capped evaluate loop"
+                if crate::sim_inproc::real_main_available() {
+                    "main.rs main/entry (clap, thread, exit) in the inproc tier; `run` itself is real in the groups whose launcher is thread:real-main-run (patched copy of main.rs mounted as a module, output captured at descriptor level); the other inproc groups call the stages through a 40-line mirror of `run`, with the real `evaluate` after a step-budgeted pre-flight"
+                } else {
+                    "main.rs run (inproc tier): 40-line mirror (the patched copy of main.rs did not compile for this tree, so the real `run` could not be mounted); real `evaluate` after a step-budgeted pre-flight"
+                }
             ]
         },
     });
